@@ -163,7 +163,19 @@ def gen_ro_sep(rng, cfg):
         blocks = gen.gen_set(rng, zs, fams) if own else default_set
         expect['x'].append(b - ref.support(blocks, a))
         a_used = {zn: v for zn, v in a.items() if any(v)}
-        if len(a_used) == 1 and rng.random() < 0.3:
+        if rng.random() < 0.25:
+            # piecewise row: maxof(x + a1.z, x + a2.z) <= b   <=>   x <= b - max_j support(a_j)
+            a2 = _coef(rng, {zn: zs[zn] for zn in a_used})
+            expect['x'][-1] = b - max(ref.support(blocks, a), ref.support(blocks, {**{zn: [0.0] * zs[zn] for zn in zs}, **a2}))
+
+            def piece(av):
+                e_ = xs[k]
+                for zn, v in av.items():
+                    e_ = ['+', e_, ['@', ['c', v], ['v', zn]]]
+                return e_
+            ce = ['<=', ['maxof', piece(a_used), piece(a2)], ['c', b]]
+            s_c = add({'op': 'cons', 'id': 'c%d' % k, 'e': ce}, cdeps, role='cons', piecewise=True)
+        elif len(a_used) == 1 and rng.random() < 0.3:
             # the random part is ONE shared expression object that may meanwhile be used inside a set or a piecewise term
             zn0 = sorted(a_used)[0]
             s_e = add({'op': 'expr', 'id': 'ze%d' % k, 'e': ['@', ['c', a_used[zn0]], ['v', zn0]]}, [s_z[zn0]], role='expr')
@@ -386,6 +398,21 @@ def gen_dro_sep(rng, cfg):
         if etype:
             ce = [ce[0], ['E', ce[1]], ce[2]] if ce[0] == '<=' else [ce[0], ce[1], ['E', ce[2]]]
         cdeps = {s_x[k]} | set(s_x) | set(s_z.values()) | set(before_expr)
+        pw = False
+        if etype and not ambs[an]['moments'] and rng.random() < 0.3:
+            # E(maxof(x + a1.z, x + a2.z)) <= b: sup of a max is the max of sups per scenario, then the worst case over p
+            pw = True
+            a2 = _coef(rng, zs)
+            deltas = [max(ref.support(ambs[an]['supports'][s_], a), ref.support(ambs[an]['supports'][s_], a2)) for s_ in range(S)]
+            expect['x'][-1] = b - ref.worst_case_expectation(ambs[an]['P'], deltas)
+
+            def piece(av):
+                e_ = xs[k]
+                for zn, v in av.items():
+                    if any(v):
+                        e_ = ['+', e_, ['@', ['c', v], ['v', zn]]]
+                return e_
+            ce = ['<=', ['E', ['maxof', piece(a), piece(a2)]], ['c', b]]
         if not etype and rng.random() < 0.35:
             # the left-hand side is one shared Python expression object (it may be wrapped elsewhere in the meantime)
             lhs = ce[1] if ce[0] == '<=' else ce[2]
@@ -398,7 +425,8 @@ def gen_dro_sep(rng, cfg):
         if own:
             kw = {} if default_amb is not None else {'anchor': s_c}
             last = add({'op': 'forall', 'id': 'c%d' % k, 'amb': an}, [s_c, s_amb['FG'.index(an)]], role='set', **kw)
-        st_after_cons_only = own and rng.random() < 0.4
+        # (forall() of a piecewise expectation constraint returns a NEW object, so it has to precede st())
+        st_after_cons_only = own and not pw and rng.random() < 0.4
         add({'op': 'st', 'm': 'm', 'ids': ['c%d' % k]},
             [s_c if st_after_cons_only else last] + s_amb + ([] if own else [s_obj]), role='st')
     if s_u:
